@@ -462,7 +462,48 @@ func c13Rounds(r *fw.Rec, sc, id, input string, mk func() *ir.Module, rounds int
 			}(gi, grng)
 		}
 		close(start)
-		wg.Wait()
+		// the printers are waited for with a watchdog: when it fires, the state of the
+		// process decides. If every printer still running is waiting for a lock (and
+		// none is runnable or asleep in the hook), nobody is left to release one: the
+		// calls will never return, which is reported with the stacks as witness.
+		// Anything else (a slow machine) is inconclusive.
+		done := make(chan struct{})
+		go func() { wg.Wait(); close(done) }()
+		select {
+		case <-done:
+		case <-time.After(45 * time.Second):
+			buf := make([]byte, 1<<20)
+			buf = buf[:runtime.Stack(buf, true)]
+			blocked, other := 0, 0
+			var witness []string
+			for _, g := range strings.Split(string(buf), "\n\n") {
+				if !strings.Contains(g, "c13Rounds.func") || strings.Contains(g, "runtime.Stack") || strings.Contains(g, "(*WaitGroup).Wait") {
+					continue
+				}
+				head := g
+				if i := strings.Index(g, "\n"); i >= 0 {
+					head = g[:i]
+				}
+				if strings.Contains(head, "sync.Mutex.Lock") || strings.Contains(head, "sync.RWMutex") || strings.Contains(head, "semacquire") {
+					blocked++
+					if len(witness) < 4 {
+						witness = append(witness, fw.Trunc(g, 1500))
+					}
+				} else {
+					other++
+				}
+			}
+			verifhook.SetYield(nil)
+			runtime.GOMAXPROCS(old)
+			if blocked > 0 && other == 0 {
+				r.Violate(fw.Violation{Key: "concurrent-print-never-returns/" + sc, Input: input,
+					What:     fmt.Sprintf("%d goroutines printing one module (%s) are all waiting for a lock 45 s after they started and no printer is runnable: the calls never return", blocked, sc),
+					Observed: strings.Join(witness, "\n\n")})
+			} else {
+				r.Inconclusive("printers still running after 45 s and not all of them blocked on locks")
+			}
+			return
+		}
 		verifhook.SetYield(nil)
 		runtime.GOMAXPROCS(old)
 		r.Eval(1)
